@@ -239,8 +239,8 @@ def ac2mp_poly(
     ).T
     # correct for exponential window
     if methodSy == "cor":
-        tau = -(nxseg - 1) / np.log(0.01)
-        lam_c = lam_c - 1 / tau
+        tau = -(nxseg - 1) / np.log(0.01)  # time constant of the window [samples]
+        lam_c = lam_c - 1 / (tau * dt)
     fn = abs(lam_c) / (2 * np.pi)  # natural frequencies
     xi = -((np.real(lam_c)) / (abs(lam_c)))  # damping ratios
     # Complex mode shapes
